@@ -2579,30 +2579,35 @@ let exchange_targets_unchecked t rels =
     table -> rel list -> (rel list * mask0) option mW **)
 
 let exchange_targets t rels =
-  bind
-    (let rec go rels0 tg cm changed =
-       match rels0 with
-       | [] -> ret ((tg, cm), changed)
-       | r :: rest ->
-         let (c, x) = r in
-         (match tbl_colidx t c with
-          | Some i ->
-            (match nth_error tg i with
-             | Some cur ->
-               if ent_eqb x cur
-               then go rest tg cm changed
-               else go rest (upd i x tg) (mk_set cm c) true
-             | None -> fail EIndex)
-          | None -> fail EMissingComp)
-     in go rels t.t_targets N0 false) (fun r ->
-    let (p0, changed) = r in
-    let (targets, cm) = p0 in
-    if negb changed
-    then ret None
-    else ret (Some
-           ((map (fun p1 -> ((fst (fst p1)), (snd p1)))
-              (filter (fun p1 -> (snd (fst p1)).ck_rel)
-                (combine (combine t.t_ids t.t_kinds) targets))), cm)))
+  bind (guard (rels_distinct rels) ERelUnspec) (fun _ ->
+    bind
+      (let rec go rels0 tg cm changed =
+         match rels0 with
+         | [] -> ret ((tg, cm), changed)
+         | r :: rest ->
+           let (c, x) = r in
+           (match tbl_colidx t c with
+            | Some i ->
+              if negb
+                   (nth i t.t_kinds { ck_rel = false; ck_zs = false;
+                     ck_triv = true }).ck_rel
+              then fail ENotRelation
+              else (match nth_error tg i with
+                    | Some cur ->
+                      if ent_eqb x cur
+                      then go rest tg cm changed
+                      else go rest (upd i x tg) (mk_set cm c) true
+                    | None -> fail EIndex)
+            | None -> fail EMissingComp)
+       in go rels t.t_targets N0 false) (fun r ->
+      let (p0, changed) = r in
+      let (targets, cm) = p0 in
+      if negb changed
+      then ret None
+      else ret (Some
+             ((map (fun p1 -> ((fst (fst p1)), (snd p1)))
+                (filter (fun p1 -> (snd (fst p1)).ck_rel)
+                  (combine (combine t.t_ids t.t_kinds) targets))), cm))))
 
 (** val evCreateEntity : nat **)
 
